@@ -100,6 +100,17 @@ def catalogue_pick(rng, opts):
 def make_case(ctx, rng, weights=None, rules=None, snap_ballots=False, render=False, allow_eq=True,
               meek_rational=False, allow_rational=True, budget=None, big=None, tweak=None, mutate_s=None):
     weights = dict(weights or DEFAULT_WEIGHTS)
+    many = False
+    n15 = getattr(ctx, '_g15', 0)
+    if n15 < (2 if ctx.quick else 12) and 'G1' in weights and not render:
+        # the first cases of every shard: an election with more than 256 candidates, the rule rotating over the shards so that one
+        # run covers every Gregory-family rule name the check uses (their counts stay around a second at this size; the
+        # iterative rules and the renderers do not, and are left to ordinary sizes)
+        ctx._g15 = n15 + 1
+        rl = [r for r in (rules or configs.ALL_RULES) if r in configs.GREGORY]
+        if rl:
+            rules = [rl[(ctx.shard * 2 + n15) % len(rl)]]
+            many = True
     opts = configs.random_config(rng, rules, allow_rational=allow_rational, meek_rational=meek_rational)
     if tweak is not None:
         opts = tweak(rng, opts)
@@ -116,6 +127,10 @@ def make_case(ctx, rng, weights=None, rules=None, snap_ballots=False, render=Fal
         hit = (opts['precision'], 'int' if opts.get('integer_quota') else 'eps')
     if hit and rng.random() < (0.3 if opts['rule'].startswith('cfer') else 0.12) and 'G3' in weights:
         s = gen.g3b_exact_hit(rng, *hit)        # a transfer landing exactly on / beside the threshold
+    if many:
+        s = gen.g15_many_candidates(rng)
+        budget = max(budget or 0, 10.0)
+        ctx.count('cases_with_more_than_256_candidates')
     if s is None and rng.random() < 0.1 and 'G1' in weights:
         # an election from the boundary catalogue: one in which this rule compared two exactly equal values somewhere
         e = catalogue_pick(rng, opts)
